@@ -357,6 +357,19 @@ fn vp_native_chunked_size_line_input_bound_body() {
         assert!(used <= prefix.len() + line_max() + 7 + seg, "{} bytes of an endless chunk-size line were consumed (line of {} bytes, segments of {})", used, n, seg);
         cases += 1; crate::verif_native_watchdog::progress();
     } } } }
+    // after the terminating chunk: whatever a peer goes on sending there - field lines without end, a line without end - the
+    // reader stops after a bounded amount of it (with the end of the body or with an error, never by reading on)
+    for prefix in [&b"0\r\n"[..], b"5\r\nhello\r\n0\r\n", b"5\r\nhello\r\n0;ext=1\r\n"] { for line in [&b"X-Trailer: value\r\n"[..], b"a: b\n", b"x", b": \r\n", b"0\r\n"] { for n in [20usize, 5_000, 400_000] { for seg in [1usize, 64, 100_000] {
+        if seg == 1 && n > 5_000 { continue; }
+        let mut wire = prefix.to_vec(); for _ in 0..n { wire.extend_from_slice(line); }
+        let mut r = reader(&wire, seg);
+        let (got, _end) = drain(&mut r, &[16, 70_000], 400);
+        assert!(b"hello".starts_with(&got), "bytes after the terminating chunk handed out as body: {:?}", String::from_utf8_lossy(&got[..got.len().min(40)]));
+        let used = r.inner.get_ref().pos;
+        // (the bound itself is not the property's business: a quarter of a megabyte is far beyond any limit the reader has)
+        assert!(used <= prefix.len() + 256 * 1024 + 2 * seg, "{} bytes following the terminating chunk were consumed ({} lines {:?}, segments of {})", used, n, String::from_utf8_lossy(line), seg);
+        cases += 1; crate::verif_native_watchdog::progress();
+    } } } }
     println!("VP-NATIVE chunked_size_line_input_bound cases={}", cases);
 }
 
